@@ -115,131 +115,331 @@ theorem leaveLoop_pcinv {s : EState} (e : Exc) (h : Bal false s) : PcInv (leaveL
   apply bal_false_pcinv
   unfold Bal; rw [h1, h2, h3]; exact h
 
-/-- `Same s s'`: the stacks, the in-flight response and the program counter are literally unchanged -/
-def Same (s s' : EState) : Prop :=
-  s'.pc = s.pc ∧ s'.resp = s.resp ∧ s'.planStack = s.planStack ∧ s'.respStack = s.respStack
+/-- the part of the state the stack discipline speaks about: program counter, in-flight response, and the
+    two stacks themselves -/
+structure Stk where
+  pc : PC
+  resp : Option Resp
+  plans : List Gen
+  resps : List Resp
 
-theorem Same.grow {s s' : EState} (h : Same s s') : Grow s s' := by
-  obtain ⟨a, b, c, d⟩ := h
+def stk (s : EState) : Stk := { pc := s.pc, resp := s.resp, plans := s.planStack, resps := s.respStack }
+
+theorem grow_of_stk {s s' : EState} (h : stk s' = stk s) : Grow s s' := by
+  have a : s'.pc = s.pc := congrArg Stk.pc h
+  have b : s'.resp = s.resp := congrArg Stk.resp h
+  have c : s'.planStack = s.planStack := congrArg Stk.plans h
+  have d : s'.respStack = s.respStack := congrArg Stk.resps h
   exact ⟨a, by rw [b], 0, by rw [c]; rfl, by rw [d]; rfl⟩
 
-theorem noteMsg_same (s : EState) (m : Msg) : Same s (noteMsg s m) := by
-  refine ⟨?_, ?_, ?_, ?_⟩ <;> (unfold noteMsg; frame_be)
-
-/-! ### the command handlers: none of them touches the stacks, except `_start_suspender`, which pushes
-the helper plan together with a response slot -/
-
-/-- close `Same s (f s ..)` goals after unfolding `f` -/
-macro "frame_same" : tactic =>
-  `(tactic| (refine ⟨?_, ?_, ?_, ?_⟩ <;> frame_be))
-
-theorem same_of_eqs {s s' : EState} (a : s'.pc = s.pc) (b : s'.resp = s.resp) (c : s'.planStack = s.planStack)
-    (d : s'.respStack = s.respStack) : Same s s' := ⟨a, b, c, d⟩
-
-theorem Same.refl (s : EState) : Same s s := ⟨rfl, rfl, rfl, rfl⟩
-
-theorem Same.trans {a b c : EState} (h1 : Same a b) (h2 : Same b c) : Same a c :=
-  ⟨h2.1.trans h1.1, h2.2.1.trans h1.2.1, h2.2.2.1.trans h1.2.2.1, h2.2.2.2.trans h1.2.2.2⟩
-
-theorem same_foldl {α} (f : EState → α → EState) (h : ∀ s a, Same s (f s a)) (l : List α) (s : EState) :
-    Same s (l.foldl f s) := by
+theorem stk_foldl {α} (f : EState → α → EState) (h : ∀ s a, stk (f s a) = stk s) (l : List α) (s : EState) :
+    stk (l.foldl f s) = stk s := by
   induction l generalizing s with
-  | nil => exact Same.refl s
-  | cons a l ih => rw [List.foldl_cons]; exact (h s a).trans (ih _)
+  | nil => rfl
+  | cons a l ih => rw [List.foldl_cons, ih, h]
 
-theorem forBundlers_go_same (f : EState → Bundler → EState × Bundler) (h : ∀ s b, Same s (f s b).1)
-    (todo done : List (String × Bundler)) (s : EState) : Same s (forBundlers.go f s todo done) := by
+theorem stk_forBundlers_go (f : EState → Bundler → EState × Bundler) (h : ∀ s b, stk (f s b).1 = stk s)
+    (todo done : List (String × Bundler)) (s : EState) : stk (forBundlers.go f s todo done) = stk s := by
   induction todo generalizing s done with
-  | nil => exact ⟨rfl, rfl, rfl, rfl⟩
+  | nil => rfl
   | cons kb rest ih =>
     obtain ⟨k, b⟩ := kb
     unfold forBundlers.go
     simp only []
-    exact (h s b).trans (ih _ _)
+    rw [ih]; exact h s b
 
-theorem forBundlers_same (f : EState → Bundler → EState × Bundler) (h : ∀ s b, Same s (f s b).1) (s : EState) :
-    Same s (forBundlers s f) := forBundlers_go_same f h _ _ s
+theorem stk_forBundlers (f : EState → Bundler → EState × Bundler) (h : ∀ s b, stk (f s b).1 = stk s) (s : EState) :
+    stk (forBundlers s f) = stk s := stk_forBundlers_go f h _ _ s
 
-theorem logCall_same (s : EState) (c : Call) : Same s (s.logCall c) := ⟨rfl, rfl, rfl, rfl⟩
-theorem emit_same (s : EState) (d : Doc) : Same s (s.emit d) := ⟨rfl, rfl, rfl, rfl⟩
-theorem setDev_same (s : EState) (n : String) (d : DevState) : Same s (setDev s n d) := ⟨rfl, rfl, rfl, rfl⟩
-theorem nextMode_same (s : EState) (n op : String) : Same s (nextMode s n op).2 := ⟨rfl, rfl, rfl, rfl⟩
-theorem putBundler_same (s : EState) (m : Msg) (b : Bundler) : Same s (putBundler s m b) := ⟨rfl, rfl, rfl, rfl⟩
-theorem emitEvent_same (s : EState) (b : Bundler) (st : String) (d : List (String × Int)) (n : String) :
-    Same s (emitEvent s b st d n).1 := ⟨rfl, rfl, rfl, rfl⟩
-theorem prepareStream_same (s : EState) (b : Bundler) (st : String) (o : List String) :
-    Same s (prepareStream s b st o).1 := ⟨rfl, rfl, rfl, rfl⟩
-theorem newStatus_same (s : EState) (d o m : String) (g : Option String) : Same s (newStatus s d o m g).2 :=
-  ⟨rfl, rfl, rfl, rfl⟩
+@[simp] theorem stk_logCall (s : EState) (c : Call) : stk (s.logCall c) = stk s := rfl
+@[simp] theorem stk_emit (s : EState) (d : Doc) : stk (s.emit d) = stk s := rfl
+@[simp] theorem stk_setDev (s : EState) (n : String) (d : DevState) : stk (setDev s n d) = stk s := rfl
+@[simp] theorem stk_nextMode (s : EState) (n op : String) : stk (nextMode s n op).2 = stk s := rfl
+@[simp] theorem stk_putBundler (s : EState) (m : Msg) (b : Bundler) : stk (putBundler s m b) = stk s := rfl
+@[simp] theorem stk_emitEvent (s : EState) (b : Bundler) (st : String) (d : List (String × Int)) (n : String) :
+    stk (emitEvent s b st d n).1 = stk s := rfl
+@[simp] theorem stk_prepareStream (s : EState) (b : Bundler) (st : String) (o : List String) :
+    stk (prepareStream s b st o).1 = stk s := rfl
+@[simp] theorem stk_newStatus (s : EState) (d o m : String) (g : Option String) : stk (newStatus s d o m g).2 = stk s := rfl
 
-theorem recordInterruption_same (s : EState) (b : Bundler) (c : String) : Same s (recordInterruption s b c).1 := by
-  unfold recordInterruption; split <;> exact ⟨rfl, rfl, rfl, rfl⟩
+@[simp] theorem stk_recordInterruption (s : EState) (b : Bundler) (c : String) : stk (recordInterruption s b c).1 = stk s := by
+  unfold recordInterruption; split <;> rfl
 
-theorem suspendMonitors_same (s : EState) (b : Bundler) : Same s (suspendMonitors s b).1 := by
-  unfold suspendMonitors; apply same_foldl; intro s x; exact ⟨rfl, rfl, rfl, rfl⟩
+@[simp] theorem stk_suspendMonitors (s : EState) (b : Bundler) : stk (suspendMonitors s b).1 = stk s := by
+  unfold suspendMonitors; apply stk_foldl; intro s x; rfl
 
-theorem restoreMonitors_same (s : EState) (b : Bundler) : Same s (restoreMonitors s b).1 := by
-  unfold restoreMonitors; apply same_foldl; intro s x; exact ⟨rfl, rfl, rfl, rfl⟩
+@[simp] theorem stk_restoreMonitors (s : EState) (b : Bundler) : stk (restoreMonitors s b).1 = stk s := by
+  unfold restoreMonitors; apply stk_foldl; intro s x; rfl
 
-theorem clearMonitors_same (s : EState) (b : Bundler) : Same s (clearMonitors s b).1 := by
-  unfold clearMonitors; exact suspendMonitors_same s b
+@[simp] theorem stk_clearMonitors (s : EState) (b : Bundler) : stk (clearMonitors s b).1 = stk s := by
+  unfold clearMonitors; simp
 
-theorem closeRunDoc_same (s : EState) (b : Bundler) (e r : String) : Same s (closeRunDoc s b e r).1 := by
-  unfold closeRunDoc
-  exact (clearMonitors_same s b).trans ⟨rfl, rfl, rfl, rfl⟩
+@[simp] theorem stk_closeRunDoc (s : EState) (b : Bundler) (e r : String) : stk (closeRunDoc s b e r).1 = stk s := by
+  unfold closeRunDoc; simp
 
-theorem resetCheckpointMeth_same (s : EState) : Same s (resetCheckpointMeth s) := by
+@[simp] theorem stk_forBundlers_pure (s : EState) (g : Bundler → Bundler) :
+    stk (forBundlers s (fun s b => (s, g b))) = stk s := stk_forBundlers _ (fun _ _ => rfl) _
+
+@[simp] theorem stk_forBundlers_ri (s : EState) (c : String) :
+    stk (forBundlers s (fun s b => recordInterruption s b c)) = stk s :=
+  stk_forBundlers _ (fun s b => stk_recordInterruption s b c) _
+
+@[simp] theorem stk_forBundlers_restore (s : EState) : stk (forBundlers s restoreMonitors) = stk s :=
+  stk_forBundlers _ stk_restoreMonitors _
+
+@[simp] theorem stk_forBundlers_suspend (s : EState) : stk (forBundlers s suspendMonitors) = stk s :=
+  stk_forBundlers _ stk_suspendMonitors _
+
+@[simp] theorem stk_forBundlers_clear (s : EState) : stk (forBundlers s clearMonitors) = stk s :=
+  stk_forBundlers _ stk_clearMonitors _
+
+@[simp] theorem stk_resetCheckpointMeth (s : EState) : stk (resetCheckpointMeth s) = stk s := by
   unfold resetCheckpointMeth; split
-  · exact Same.refl s
-  · exact Same.trans ⟨rfl, rfl, rfl, rfl⟩ (forBundlers_same _ (fun s _ => Same.refl s) _)
+  · rfl
+  · rw [stk_forBundlers_pure]; rfl
 
-theorem stopMovables_same (s : EState) : Same s (stopMovables s) := by
-  unfold stopMovables; apply same_foldl; intro s x; exact ⟨rfl, rfl, rfl, rfl⟩
+@[simp] theorem stk_stopMovables (s : EState) : stk (stopMovables s) = stk s := by
+  unfold stopMovables; apply stk_foldl; intro s x; rfl
 
-theorem pauseHooks_same (s : EState) : Same s (pauseHooks s) := by
+@[simp] theorem stk_pauseHooks (s : EState) : stk (pauseHooks s) = stk s := by
   unfold pauseHooks
-  apply same_foldl
+  apply stk_foldl
   intro s n
   split
   · split
-    · simp only []
-      split
-      · exact Same.trans ⟨rfl, rfl, rfl, rfl⟩ (resetCheckpointMeth_same _)
-      · exact ⟨rfl, rfl, rfl, rfl⟩
-    · exact Same.refl s
-  · exact Same.refl s
+    · simp only []; split <;> simp
+    · rfl
+  · rfl
 
-theorem resumeHooks_same (s : EState) : Same s (resumeHooks s) := by
+@[simp] theorem stk_resumeHooks (s : EState) : stk (resumeHooks s) = stk s := by
   unfold resumeHooks
-  apply same_foldl
+  apply stk_foldl
   intro s n
   split
-  · split
-    · exact ⟨rfl, rfl, rfl, rfl⟩
-    · exact Same.refl s
-  · exact Same.refl s
+  · split <;> rfl
+  · rfl
 
-theorem rewindPlan_same (s : EState) : Same s (rewindPlan s).2 := by
+@[simp] theorem stk_rewindPlan (s : EState) : stk (rewindPlan s).2 = stk s := by
   unfold rewindPlan
   simp only []
   split
-  · exact ⟨rfl, rfl, rfl, rfl⟩
-  · exact Same.trans ⟨rfl, rfl, rfl, rfl⟩ (forBundlers_same _ (fun s _ => Same.refl s) _)
+  · rfl
+  · rw [stk_forBundlers_pure]; rfl
 
-theorem requestPause_same {s s' : EState} {d : Bool} (h : requestPause s d = .ok s') : Same s s' := by
+theorem stk_setState {s s' : EState} {n : St} (h : setState s n = .ok s') : stk s' = stk s := by
+  unfold setState at h; split at h
+  · cases h; rfl
+  · cases h
+
+theorem stk_requestPause {s s' : EState} {d : Bool} (h : requestPause s d = .ok s') : stk s' = stk s := by
   unfold requestPause at h
   split at h
   · cases h
   · split at h
-    · cases h; exact ⟨rfl, rfl, rfl, rfl⟩
+    · cases h; rfl
     · split at h
       · cases h
       · rename_i s1 hs
         cases h
-        have h1 : Same s s1 := by
-          unfold setState at hs; split at hs
-          · cases hs; exact ⟨rfl, rfl, rfl, rfl⟩
-          · cases hs
-        exact h1.trans (Same.trans (forBundlers_same _ (fun s b => recordInterruption_same s b "pause") _) ⟨rfl, rfl, rfl, rfl⟩)
+        have h1 := stk_setState hs
+        have e : ∀ (x : EState) (b : Bool), stk { x with cancelPending := b } = stk x := fun _ _ => rfl
+        rw [e, stk_forBundlers_ri, h1]; rfl
+
+theorem stk_noteMsg (s : EState) (m : Msg) : stk (noteMsg s m) = stk s := by
+  unfold noteMsg; frame_be
+
+/-- close a goal `stk (f ... s ...) = stk s` after unfolding `f` -/
+macro "frame_stk" : tactic =>
+  `(tactic| repeat' (first | rfl | (simp; done) | split | (simp only []; (first | rfl | split))))
+
+theorem stk_cmdOpenRun (s : EState) (m : Msg) : stk (cmdOpenRun s m).1 = stk s := by unfold cmdOpenRun; frame_stk
+theorem stk_with_bundlers (x : EState) (l : List (String × Bundler)) : stk { x with bundlers := l } = stk x := rfl
+theorem stk_with_msgCache (x : EState) (l : Option (List Msg)) : stk { x with msgCache := l } = stk x := rfl
+theorem stk_with_rewindable (x : EState) (l : Bool) : stk { x with rewindable := l } = stk x := rfl
+theorem stk_with_staged (x : EState) (l : List String) : stk { x with staged := l } = stk x := rfl
+
+theorem stk_cmdCloseRun (s : EState) (m : Msg) : stk (cmdCloseRun s m).1 = stk s := by
+  unfold cmdCloseRun
+  split
+  · rfl
+  · rename_i b hb
+    split
+    · rfl
+    · simp only []
+      have h1 := stk_closeRunDoc s b (m.name.getD "success") ""
+      generalize closeRunDoc s b (m.name.getD "success") "" = p at h1
+      obtain ⟨s1, b1⟩ := p
+      simp only [] at h1 ⊢
+      split
+      · rw [stk_resetCheckpointMeth, stk_with_bundlers]; exact h1
+      · rw [stk_with_bundlers]; exact h1
+theorem stk_cmdCreate (s : EState) (m : Msg) : stk (cmdCreate s m).1 = stk s := by unfold cmdCreate; frame_stk
+theorem stk_cmdRead (s : EState) (m : Msg) : stk (cmdRead s m).1 = stk s := by unfold cmdRead; frame_stk
+theorem stk_cmdSave (s : EState) (m : Msg) : stk (cmdSave s m).1 = stk s := by unfold cmdSave; frame_stk
+theorem stk_cmdDrop (s : EState) (m : Msg) : stk (cmdDrop s m).1 = stk s := by unfold cmdDrop; frame_stk
+theorem stk_cmdCheckpoint (s : EState) : stk (cmdCheckpoint s).1 = stk s := by unfold cmdCheckpoint; frame_stk
+theorem stk_cmdClearCheckpoint (s : EState) : stk (cmdClearCheckpoint s).1 = stk s := by
+  unfold cmdClearCheckpoint
+  simp only []
+  rw [stk_forBundlers_pure]; rfl
+theorem stk_cmdRewindable (s : EState) (m : Msg) : stk (cmdRewindable s m).1 = stk s := by
+  unfold cmdRewindable
+  split
+  · rfl
+  · simp only []
+    split
+    · rw [stk_resetCheckpointMeth]; rfl
+    · rfl
+theorem stk_cmdSet (s : EState) (m : Msg) : stk (cmdSet s m).1 = stk s := by unfold cmdSet; frame_stk
+theorem stk_cmdTrigger (s : EState) (m : Msg) : stk (cmdTrigger s m).1 = stk s := by unfold cmdTrigger; frame_stk
+theorem stk_cmdWait (s : EState) (m : Msg) : stk (cmdWait s m).1 = stk s := by unfold cmdWait; frame_stk
+theorem stk_cmdStage (s : EState) (m : Msg) (op : String) : stk (cmdStage s m op).1 = stk s := by
+  unfold cmdStage
+  simp only []
+  split
+  · rfl
+  · rw [stk_resetCheckpointMeth]
+    split
+    · split <;> rfl
+    · rfl
+theorem stk_cmdMonitor (s : EState) (m : Msg) : stk (cmdMonitor s m).1 = stk s := by unfold cmdMonitor; frame_stk
+theorem stk_cmdUnmonitor (s : EState) (m : Msg) : stk (cmdUnmonitor s m).1 = stk s := by unfold cmdUnmonitor; frame_stk
+theorem stk_cmdResumeFromSuspender (s : EState) : stk (cmdResumeFromSuspender s).1 = stk s := by
+  unfold cmdResumeFromSuspender; frame_stk
+theorem stk_cmdWaitFor (s : EState) (m : Msg) : stk (cmdWaitFor s m).1 = stk s := by unfold cmdWaitFor; frame_stk
+
+/-- `_start_suspender` is the only command that touches the stacks: it pushes the helper plan TOGETHER with
+    a response slot for it (`self._plan_stack.append(...)`, `self._response_stack.append(None)`). -/
+theorem cmdStartSuspender_stacks (s : EState) (m : Msg) :
+    stk (cmdStartSuspender s m).1 = stk s ∨
+    ∃ helper, (cmdStartSuspender s m).1.pc = s.pc ∧ (cmdStartSuspender s m).1.resp = s.resp ∧
+      (cmdStartSuspender s m).1.planStack = helper :: s.planStack ∧
+      (cmdStartSuspender s m).1.respStack = Resp.none :: s.respStack := by
+  unfold cmdStartSuspender
+  split
+  · exact Or.inl rfl
+  · rename_i rq hrq
+    right
+    simp only []
+    have h := stk_rewindPlan (pauseHooks (stopMovables (forBundlers s fun s b => recordInterruption s b (rq.just.getD "suspended"))))
+    rw [stk_pauseHooks, stk_stopMovables, stk_forBundlers_ri] at h
+    generalize rewindPlan (pauseHooks (stopMovables (forBundlers s fun s b => recordInterruption s b (rq.just.getD "suspended")))) = p at h
+    obtain ⟨rw, s1⟩ := p
+    simp only [] at h ⊢
+    have a : s1.pc = s.pc := congrArg Stk.pc h
+    have b : s1.resp = s.resp := congrArg Stk.resp h
+    have c : s1.planStack = s.planStack := congrArg Stk.plans h
+    have d : s1.respStack = s.respStack := congrArg Stk.resps h
+    exact ⟨_, a, b, by rw [c], by rw [d]⟩
+
+theorem grow_cmdStartSuspender (s : EState) (m : Msg) : Grow s (cmdStartSuspender s m).1 := by
+  rcases cmdStartSuspender_stacks s m with h | ⟨helper, a, b, c, d⟩
+  · exact grow_of_stk h
+  · exact ⟨a, by rw [b], 1, by rw [c]; rfl, by rw [d]; rfl⟩
+
+/-- every command keeps the two stacks in step -/
+theorem runCommand_grow (s : EState) (m : Msg) : Grow s (runCommand s m).1 := by
+  unfold runCommand
+  split
+  · exact grow_of_stk (stk_cmdOpenRun s m)
+  · exact grow_of_stk (stk_cmdCloseRun s m)
+  · exact grow_of_stk (stk_cmdCreate s m)
+  · exact grow_of_stk (stk_cmdRead s m)
+  · exact grow_of_stk (stk_cmdSave s m)
+  · exact grow_of_stk (stk_cmdDrop s m)
+  · exact grow_of_stk (stk_cmdCheckpoint s)
+  · exact grow_of_stk (stk_cmdClearCheckpoint s)
+  · exact grow_of_stk (stk_cmdRewindable s m)
+  · exact grow_of_stk (stk_cmdSet s m)
+  · exact grow_of_stk (stk_cmdTrigger s m)
+  · exact grow_of_stk (stk_cmdWait s m)
+  · exact Grow.refl s
+  · exact grow_of_stk (stk_cmdStage s m _)
+  · exact grow_of_stk (stk_cmdStage s m _)
+  · exact grow_of_stk (stk_cmdMonitor s m)
+  · exact grow_of_stk (stk_cmdUnmonitor s m)
+  · exact Grow.refl s
+  · split
+    · rename_i s' h; exact grow_of_stk (stk_requestPause h)
+    · exact Grow.refl s
+  · exact grow_cmdStartSuspender s m
+  · exact grow_of_stk (stk_cmdResumeFromSuspender s)
+  · exact grow_of_stk (stk_cmdWaitFor s m)
+  · exact Grow.refl s
+
+/-- every command other than `_start_suspender` leaves the stacks literally unchanged -/
+theorem runCommand_stk (s : EState) (m : Msg) (h : m.cmd ≠ "_start_suspender") : stk (runCommand s m).1 = stk s := by
+  unfold runCommand
+  split
+  · exact stk_cmdOpenRun s m
+  · exact stk_cmdCloseRun s m
+  · exact stk_cmdCreate s m
+  · exact stk_cmdRead s m
+  · exact stk_cmdSave s m
+  · exact stk_cmdDrop s m
+  · exact stk_cmdCheckpoint s
+  · exact stk_cmdClearCheckpoint s
+  · exact stk_cmdRewindable s m
+  · exact stk_cmdSet s m
+  · exact stk_cmdTrigger s m
+  · exact stk_cmdWait s m
+  · rfl
+  · exact stk_cmdStage s m _
+  · exact stk_cmdStage s m _
+  · exact stk_cmdMonitor s m
+  · exact stk_cmdUnmonitor s m
+  · rfl
+  · split
+    · rename_i s' h; exact stk_requestPause h
+    · rfl
+  · rename_i hc; exact absurd hc h
+  · exact stk_cmdResumeFromSuspender s
+  · exact stk_cmdWaitFor s m
+  · rfl
+
+/-- a command only ever suspends at one of the four in-command suspension points -/
+theorem runCommand_suspend_pc (s : EState) (m : Msg) (pc : PC) (s' : EState)
+    (h : runCommand s m = (s', .suspend pc)) : inCmd pc = true := by
+  unfold runCommand at h
+  split at h
+  · unfold cmdOpenRun at h; (try simp only [] at h); split at h <;> cases h
+  · unfold cmdCloseRun at h; (try simp only [] at h); repeat' split at h
+    all_goals cases h
+  · unfold cmdCreate at h; (try simp only [] at h); repeat' split at h
+    all_goals cases h
+  · unfold cmdRead at h; (try simp only [] at h); repeat' split at h
+    all_goals cases h
+  · unfold cmdSave at h; (try simp only [] at h); repeat' split at h
+    all_goals cases h
+  · unfold cmdDrop at h; (try simp only [] at h); repeat' split at h
+    all_goals cases h
+  · unfold cmdCheckpoint at h; (try simp only [] at h); repeat' split at h
+    all_goals first | (cases h; rfl) | cases h
+  · unfold cmdClearCheckpoint at h; cases h
+  · unfold cmdRewindable at h; (try simp only [] at h); repeat' split at h
+    all_goals cases h
+  · unfold cmdSet at h; (try simp only [] at h); repeat' split at h
+    all_goals cases h
+  · unfold cmdTrigger at h; (try simp only [] at h); repeat' split at h
+    all_goals cases h
+  · unfold cmdWait at h; (try simp only [] at h); repeat' split at h
+    all_goals first | (cases h; rfl) | cases h
+  · cases h; rfl
+  · unfold cmdStage at h; (try simp only [] at h); repeat' split at h
+    all_goals cases h
+  · unfold cmdStage at h; (try simp only [] at h); repeat' split at h
+    all_goals cases h
+  · unfold cmdMonitor at h; (try simp only [] at h); repeat' split at h
+    all_goals cases h
+  · unfold cmdUnmonitor at h; (try simp only [] at h); repeat' split at h
+    all_goals cases h
+  · cases h
+  · split at h <;> cases h
+  · unfold cmdStartSuspender at h; (try simp only [] at h); repeat' split at h
+    all_goals cases h
+  · unfold cmdResumeFromSuspender at h; cases h
+  · unfold cmdWaitFor at h; (try simp only [] at h); repeat' split at h
+    all_goals first | (cases h; rfl) | cases h
+  · cases h
 
 end BlueskyVerif.Engine
